@@ -8,3 +8,9 @@ INVARIANT WrapMeets
 INVARIANT WrapLength
 INVARIANT Symmetric
 INVARIANT KernelLaws
+INVARIANT LazyAccepts
+INVARIANT LazyEnds
+INVARIANT LazyIsShort
+INVARIANT LazyPatternsRestart
+INVARIANT LazyConserves
+INVARIANT LazyGeneratorDies
